@@ -92,6 +92,7 @@ type Dev struct {
 	DAtErr    int            // bytes delivered up to and including that read
 	Stalls    int
 	SlowMs    int64  // simulated milliseconds that scripted Reads took so far
+	GCs       int    // collection cycles completed during scripted Reads
 	AfterErr  int    // reads served after the first error (diagnostic: retry-after-error)
 	Hook      func() // called at the start of every Read (scheduler preemption point), may be nil
 }
@@ -127,6 +128,10 @@ func (x *Dev) byteAt(i int) byte {
 // time pass: a scripted Read that "takes" J milliseconds calls it before it returns.
 var ClockJump func(ms int64)
 
+// GCNow, when set (by the workers), completes a garbage-collection cycle and gives finalizers time to run:
+// a scripted Read with G set calls it before it returns.
+var GCNow func()
+
 func (x *Dev) Read(p []byte) (int, error) {
 	if x.Hook != nil {
 		x.Hook()
@@ -137,6 +142,10 @@ func (x *Dev) Read(p []byte) (int, error) {
 		s := x.script[x.step]
 		x.step++
 		took = s.J
+		if s.G && GCNow != nil {
+			GCNow()
+			x.GCs++
+		}
 		if s.J != 0 {
 			x.SlowMs += s.J
 			if ClockJump != nil {
